@@ -165,7 +165,17 @@ def m_iter_as_slice(an, st, cs):
     return ("P", ("field", base, pre + (ia,)), lo * esz, hi - lo)
 
 
+def m_slice_from_chunks(an, st, cs):
+    # GenericArray::<T, N>::slice_from_chunks(_mut)(chunks) : the same address, len(chunks) * N elements of T
+    p = cs.args[0]
+    if p[0] != "P" or p[3] is None or len(cs.targs) < 2:
+        return None
+    return ("P", p[1], p[2], p[3] * an.tenv.length(cs.targs[1]))
+
+
 MODELS = {
+    "GenericArray<$0,$1>::slice_from_chunks": m_slice_from_chunks,
+    "GenericArray<$0,$1>::slice_from_chunks_mut": m_slice_from_chunks,
     "GenericArray<$0,$1>::len": m_len,
     "ArrayConsumer<$0,$1>::new": m_consumer_new,
     "IntrusiveArrayBuilder<$0,$1>::new": m_intrusive_new,
